@@ -101,6 +101,12 @@ def harness(ctx):
     use_acc = ctx.choose_bool("-acc", free=True)
     inputs = build(n, seed)
     d = os.path.join(H.scratch(), "c12-%d" % n)
+    if metric == "corr" and n >= 2 and ctx.choose("last-input-has-a-constant-forecast", (False, True), free=True):
+        # a score that is undefined (nan) on every row for one input only, although its data are valid
+        for pos in inputs[-1].fields["fcst"]:
+            inputs[-1].fields["fcst"][pos] = 1.0
+        d += "-const"
+        ctx.flag("undefined-column")
     os.makedirs(d, exist_ok=True)
     paths = []
     for ai in inputs:
@@ -387,7 +393,7 @@ def run(tier, only=None):
         st = explore.explore(h, mode="full", params=params, repo_root=core.REPO, time_cap=(400 if tier == "quick" else 3000))
         subs.append(core.Sub.from_e1(name, st, bound={"tables": "full product inputs x metrics x axes x {csv,text} x -f x -leg x -acc (x {one, two} thresholds for threshold metrics on data axes)", "refuse": "26 diagrams x {csv,text}", "obsfcst": "full product inputs x 6 axes x {csv,text} x 4 quantile lists x 2 aggregators", "names": "{csv,text} x 3 ways of giving two inputs the same / a confusing name x 3 axes"}[name],
                                      rule="one execution = one command line; header, row labels and every number compared with the reference; non-trivial = more than one row or column",
-                                     required_flags=("two-thresholds", "undefined-for-one-threshold") if name == "tables" else (), wall=time.time() - t0))
+                                     required_flags=("two-thresholds", "undefined-for-one-threshold", "undefined-column") if name == "tables" else (), wall=time.time() - t0))
     return subs
 
 
